@@ -67,6 +67,8 @@ def derived_schema(ver):
  <xs:simpleType name="umix"><xs:union memberTypes="small"><xs:simpleType><xs:restriction base="xs:boolean"/></xs:simpleType><xs:simpleType><xs:restriction base="xs:token"><xs:minLength value="2"/><xs:maxLength value="4"/></xs:restriction></xs:simpleType></xs:union></xs:simpleType>
  <xs:simpleType name="twoWords"><xs:restriction base="us"><xs:pattern value="[a-z]+ [a-z]+|[0-9]+"/></xs:restriction></xs:simpleType>
  <xs:simpleType name="lead"><xs:restriction base="us"><xs:pattern value="  [a-z]+|[0-9]+"/></xs:restriction></xs:simpleType>
+ <xs:simpleType name="twoShort"><xs:restriction base="twoWords"><xs:pattern value=".{{1,5}}"/></xs:restriction></xs:simpleType>
+ <xs:simpleType name="twoShortA"><xs:restriction base="twoShort"><xs:pattern value="[a1].*"/></xs:restriction></xs:simpleType>
  <xs:simpleType name="qnames"><xs:list itemType="xs:QName"/></xs:simpleType>
  <xs:simpleType name="qn23"><xs:restriction base="qnames"><xs:minLength value="2"/><xs:maxLength value="3"/></xs:restriction></xs:simpleType>
  <xs:simpleType name="qn2"><xs:restriction base="qn23"><xs:length value="2"/></xs:restriction></xs:simpleType>
@@ -77,7 +79,8 @@ def derived_schema(ver):
  <xs:element name="small" type="small"/><xs:element name="smaller" type="smaller"/><xs:element name="word" type="word"/><xs:element name="en" type="en"/>
  <xs:element name="ilist" type="ilist"/><xs:element name="ilist2" type="ilist2"/><xs:element name="u" type="u"/><xs:element name="money" type="money"/>
  <xs:element name="durs" type="durs"/><xs:element name="stamps" type="stamps"/><xs:element name="ien" type="ien"/><xs:element name="qn23" type="qn23"/><xs:element name="qn2" type="qn2"/><xs:element name="tok23" type="tok23"/>
- <xs:element name="code3" type="code3"/><xs:element name="price2" type="price2"/><xs:element name="pt3" type="pt3"/><xs:element name="umix" type="umix"/><xs:element name="twoWords" type="twoWords"/><xs:element name="lead" type="lead"/></xs:schema>''')
+ <xs:element name="code3" type="code3"/><xs:element name="price2" type="price2"/><xs:element name="pt3" type="pt3"/><xs:element name="umix" type="umix"/><xs:element name="twoWords" type="twoWords"/><xs:element name="lead" type="lead"/>
+ <xs:element name="twoShort" type="twoShort"/><xs:element name="twoShortA" type="twoShortA"/></xs:schema>''')
 
 
 def isint(t): return re.fullmatch(r'[+-]?[0-9]+', t) is not None
@@ -113,6 +116,9 @@ REF = {
     # (xs:int collapses, xs:string preserves)
     'twoWords': lambda t: _us(t, r'[a-z]+ [a-z]+|[0-9]+'),
     'lead': lambda t: _us(t, r'  [a-z]+|[0-9]+'),
+    # every step of a chain of restrictions of a union contributes its patterns: the value matches all of them
+    'twoShort': lambda t: _us(t, r'[a-z]+ [a-z]+|[0-9]+') and _us(t, r'.{1,5}'),
+    'twoShortA': lambda t: _us(t, r'[a-z]+ [a-z]+|[0-9]+') and _us(t, r'.{1,5}') and _us(t, r'[a1].*'),
     'durs': lambda t: all(re.fullmatch(r'-?P(?=.)([0-9]+Y)?([0-9]+M)?([0-9]+D)?(T(?=.)([0-9]+H)?([0-9]+M)?([0-9]+(\.[0-9]+)?S)?)?', x) is not None for x in t.split(' ')) if t else True,
     'stamps': lambda t: all(re.fullmatch(r'-?[0-9]{4}-[0-9]{2}-[0-9]{2}T[0-9]{2}:[0-9]{2}:[0-9]{2}(\.[0-9]+)?(Z|[+-][0-9]{2}:[0-9]{2})?', x) is not None for x in t.split(' ')) if t else True,
     'money': lambda t: re.fullmatch(r'[+-]?([0-9]+(\.[0-9]*)?|\.[0-9]+)', t) is not None and sum(digits(t)) <= 4 and digits(t)[1] <= 2,
